@@ -114,7 +114,10 @@ SetName(n) ==
 
 \* positional names: key i is called key<Letter i>, data field i dat<Letter i>, ... (the statement is about order,
 \* not about the spelling of member names, which is C02's subject)
-Named(prefix, i, rec) == [words |-> <<prefix, Letters[i]>>] @@ rec
+\* ... except under the focus "keynames": there every key name is a strict prefix of the next one (keyA, keyAFull,
+\* keyAFullView - as in docId / docIdRev), the shorter name declared first: path parameters are whole path segments
+NestedKeyWords == << <<"key", "a">>, <<"key", "a", "full">>, <<"key", "a", "full", "view">> >>
+Named(prefix, i, rec) == [words |-> IF prefix = "key" /\ focus = "keynames" /\ i <= 3 THEN NestedKeyWords[i] ELSE <<prefix, Letters[i]>>] @@ rec
 NamedFields(prefix, types) == [i \in 1..Len(types) |-> [words |-> <<prefix, Letters[i]>>, type |-> types[i]]]
 
 \* k = [words, type, marker, tenant, shard, req]
